@@ -162,6 +162,19 @@ class Matcher:
         return more()
 
 
+def _may_contain(ctx, chars, lit):
+    from .sstr import CLASS_RANGES
+    for c in chars:
+        if type(c) is int:
+            if c == lit:
+                return True
+        else:
+            k = ctx.char_cls.get(c.get_id())
+            if k is None or any(lo <= lit <= hi for lo, hi in CLASS_RANGES[k]):
+                return True
+    return False
+
+
 def sym_captures(ctx, rx, s):
     """returns (named dict, index list) of SStr or None"""
     pat = sre_parse.parse(rx.pattern)
@@ -172,6 +185,10 @@ def sym_captures(ctx, rx, s):
     for c in chars:
         if type(c) is int and c >= 0x80:
             raise Inconclusive("regex over text with non-ASCII bytes and symbolic parts")
+    # literals that every match must contain: if one of them cannot occur in the text there is no match
+    for op, av in nodes:
+        if op is sre_c.LITERAL and not _may_contain(ctx, chars, av):
+            return None
     mt = Matcher(ctx, chars)
     for start in range(0, len(chars) + 1):
         r = mt.m(nodes, 0, start, {}, lambda p2, g2: (p2, g2))
